@@ -1268,6 +1268,7 @@ Section FastSame.
   Local Notation pmul := (pmul fk).
   Local Notation pprod := (pprod fk).
   Local Notation repr := (repr fk ok den).
+  Add Field kfield_PolyCoreProofs_FastSame : (kFT fk).
 
   Theorem multiply_spec a b : okl a -> okl b -> (poly_degree o a + poly_degree o b + 1 <= 2 ^ Z.of_nat lmax)%Z ->
     exists r, poly_multiply o ntt intt a b = Some r /\ okl r /\
@@ -1306,14 +1307,8 @@ Section FastSame.
           - rewrite (coeff_above_pdeg fk (D l)); [rewrite coeff_cons_S, coeff_nil; reflexivity|].
             rewrite <- (degree_pdeg o fk ok den H l Hl). lia. }
         cbn [map]. rewrite EL, M2. apply peq_intro. intros [|i].
-        * rewrite coeff_pmul_cons, !coeff_cons_0. rewrite (Radd_0_l (F_R (kFT fk))) || idtac.
-          transitivity (kadd fk (kmul fk (den c) (den c)) (k0 fk)); [|reflexivity].
-          rewrite (Radd_comm (F_R (kFT fk))), (Radd_0_l (F_R (kFT fk))). reflexivity.
-        * rewrite coeff_pmul_cons, !coeff_cons_S, !coeff_nil, coeff_pmul_nil.
-          rewrite (Rmul_comm (F_R (kFT fk))).
-          transitivity (kadd fk (k0 fk) (k0 fk)); [rewrite (Radd_0_l (F_R (kFT fk))); reflexivity|].
-          f_equal. symmetry. rewrite (Rmul_comm (F_R (kFT fk))).
-          pose proof (Rmul_0_l (Rsth := Eqsth K) (Eq_ext (kadd fk) (kmul fk) (kopp fk)) (F_R (kFT fk)) (den c)) as Z0. exact Z0.
+        * rewrite coeff_pmul_cons, !coeff_cons_0. ring.
+        * rewrite coeff_pmul_cons, !coeff_cons_S, !coeff_nil. rewrite coeff_pmul_nil. ring.
       + apply Z.eqb_neq in E0.
         (* the remaining code is literally fast_multiply l l *)
         destruct (fast_multiply_spec l l Hl Hl ltac:(lia)) as [r [R1 [R2 [R3 R4]]]].
@@ -1336,7 +1331,7 @@ Section FastSame.
     - unfold poly_square_v1. destruct (poly_degree o l =? -1)%Z eqn:E1.
       + apply Z.eqb_eq in E1. exists []. split; [reflexivity|]. apply repr_nil. apply pmul_pzero_l.
         apply (degree_neg_pzero o fk ok den H l Hl). lia.
-      + destruct (poly_degree o l * 2 + 1 >? SQUARE_FAST_CUTOFF_LEN)%Z eqn:E2; [|apply Z.gtb_ltb in E2; apply Z.ltb_ge in E2; lia].
+      + destruct (poly_degree o l * 2 + 1 >? SQUARE_FAST_CUTOFF_LEN)%Z eqn:E2; [|rewrite Z.gtb_ltb in E2; apply Z.ltb_ge in E2; lia].
         apply fast_square_spec; assumption.
   Qed.
 
@@ -1367,3 +1362,109 @@ Section FastSame.
     exists r. split; [exact R1|]. split; [exact R2|]. split; [exact (R3 Hne)|exact R4].
   Qed.
 End FastSame.
+
+(* ------------------------------------------------------------------ fast_pow: the accumulator's degree stays below the
+   supported transform length, so the invariant is indexed by the exponent reached so far *)
+Section PowIndexed.
+  Context {F : Type}.
+  Variable N : nat.
+  Variable G : nat -> list F -> Prop.
+  Variables sq mulself : list F -> option (list F).
+  Hypothesis Hsq : forall acc n, (n + n <= N)%nat -> G n acc -> exists r, sq acc = Some r /\ G (n + n)%nat r.
+  Hypothesis Hmu : forall acc n, (n + 1 <= N)%nat -> G n acc -> exists r, mulself acc = Some r /\ G (n + 1)%nat r.
+  Lemma pow_go_indexed k : forall e acc n, (0 <= e)%Z -> (n * 2 ^ k + Z.to_nat (e mod 2 ^ Z.of_nat k) <= N)%nat -> G n acc ->
+    exists r, pow_go sq mulself k e acc = Some r /\ G (n * 2 ^ k + Z.to_nat (e mod 2 ^ Z.of_nat k))%nat r.
+  Proof.
+    induction k as [|k IH]; intros e acc n He Hb G0.
+    - exists acc. split; [reflexivity|]. rewrite Z.mod_1_r. cbn [Z.to_nat Nat.pow].
+      replace (n * 1 + 0)%nat with n by lia. exact G0.
+    - cbn [pow_go].
+      assert (P1 : (1 <= 2 ^ k)%nat) by (clear; induction k; cbn [Nat.pow]; lia).
+      rewrite (bit_step e k He) in Hb |- *.
+      pose proof (Z.mod_pos_bound e (2 ^ Z.of_nat k) ltac:(lia)) as MB.
+      assert (E2 : Z.to_nat (2 ^ Z.of_nat k) = (2 ^ k)%nat).
+      { rewrite Z2Nat.inj_pow by lia. rewrite Nat2Z.id. reflexivity. }
+      cbn [Nat.pow] in Hb |- *.
+      destruct (Z.testbit e (Z.of_nat k)) eqn:B.
+      + rewrite Z2Nat.inj_add in Hb |- * by lia. rewrite E2 in Hb |- *.
+        destruct (Hsq acc n ltac:(nia) G0) as [acc1 [S1 S2]]. rewrite S1.
+        destruct (Hmu acc1 (n + n)%nat ltac:(nia) S2) as [acc2 [M1 M2]]. rewrite M1.
+        destruct (IH e acc2 (n + n + 1)%nat He ltac:(nia) M2) as [r [R1 R2]]. exists r. split; [exact R1|].
+        replace (n * (2 * 2 ^ k) + (2 ^ k + Z.to_nat (e mod 2 ^ Z.of_nat k)))%nat
+          with ((n + n + 1) * 2 ^ k + Z.to_nat (e mod 2 ^ Z.of_nat k))%nat by nia. exact R2.
+      + rewrite Z.add_0_l in Hb |- *.
+        destruct (Nat.eq_dec n 0) as [->|Nz].
+        * (* leading zero bits cannot occur with n = 0 unless everything below is smaller; square of base^0 *)
+          destruct (Hsq acc O ltac:(lia) G0) as [acc1 [S1 S2]]. rewrite S1.
+          destruct (IH e acc1 (0 + 0)%nat He ltac:(cbn; lia) S2) as [r [R1 R2]]. exists r. split; [exact R1|].
+          cbn [Nat.add Nat.mul] in R2 |- *. exact R2.
+        * destruct (Hsq acc n ltac:(nia) G0) as [acc1 [S1 S2]]. rewrite S1.
+          destruct (IH e acc1 (n + n)%nat He ltac:(nia) S2) as [r [R1 R2]]. exists r. split; [exact R1|].
+          replace (n * (2 * 2 ^ k))%nat with ((n + n) * 2 ^ k)%nat by nia. exact R2.
+  Qed.
+End PowIndexed.
+
+Section FastPow.
+  Context {F K : Type} (o : fops F) (fk : fieldK K) (ok : F -> Prop) (den : F -> K).
+  Hypothesis H : field_ok o fk ok den.
+  Variable ntt : list F -> option (list F).
+  Variable intt : list F -> option (list F).
+  Variable lmax : nat.
+  Variable wr : nat -> K.
+  Hypothesis ntt_is_dft : forall l x, (l <= lmax)%nat -> length x = (2 ^ l)%nat -> Forall ok x ->
+    exists y, ntt x = Some y /\ Forall ok y /\ length y = length x /\ map den y = dft fk (wr l) (map den x).
+  Hypothesis intt_is_idft : forall l x, (l <= lmax)%nat -> length x = (2 ^ l)%nat -> Forall ok x ->
+    exists y, intt x = Some y /\ Forall ok y /\ length y = length x /\ map den y = idft fk (wr l) (map den x).
+  Hypothesis wr_half_root : forall l, (l <= lmax)%nat -> half_root fk (wr l) l.
+  Hypothesis wr_nonzero : forall l, (l <= lmax)%nat -> wr l <> k0 fk.
+  Hypothesis two_nz : two_neq_0 fk.
+  Local Notation D := (map den).
+  Local Notation okl := (Forall ok).
+  Local Notation peq := (peq fk).
+  Local Notation pmul := (pmul fk).
+
+  Lemma pdeg_pone : pdeg fk (pone fk) = 0%Z.
+  Proof. unfold pdeg, pone. cbn [pnorm]. destruct (keq_dec fk (k1 fk) (k0 fk)) as [X|X]; [exfalso; exact (k1_neq_0 fk X)|reflexivity]. Qed.
+  Lemma pdeg_ppow p n : (0 <= pdeg fk p)%Z -> pdeg fk (ppow fk p n) = (Z.of_nat n * pdeg fk p)%Z.
+  Proof.
+    intros Hp. induction n as [|n IH]; [cbn [ppow]; rewrite pdeg_pone; lia|].
+    cbn [ppow]. rewrite pdeg_pmul; [rewrite IH; lia|exact Hp|rewrite IH; lia].
+  Qed.
+
+  (* fast_pow = repeated product, as long as the result degree fits the supported transform length *)
+  Theorem fast_pow_spec l e : okl l -> (0 <= e)%Z -> (Z.max 0 (poly_degree o l) * e * 2 + 1 <= 2 ^ Z.of_nat lmax)%Z ->
+    exists r, poly_fast_pow o ntt intt l e = Some r /\ okl r /\ peq (D r) (ppow fk (D l) (Z.to_nat e)).
+  Proof.
+    intros Hl He Hsz. unfold poly_fast_pow, poly_pow_with. destruct (e =? 0)%Z eqn:E0.
+    - apply Z.eqb_eq in E0. subst e. exists (poly_one o). split; [reflexivity|]. split; [apply (one_ok o fk ok den H)|].
+      rewrite (one_D o fk ok den H). reflexivity.
+    - apply Z.eqb_neq in E0. destruct (poly_degree o l <? 0)%Z eqn:Ed.
+      + apply Z.ltb_lt in Ed. exists []. split; [reflexivity|]. split; [constructor|].
+        apply (degree_neg_pzero o fk ok den H l Hl) in Ed. cbn [map]. symmetry. apply peq_nil_pzero.
+        destruct (Z.to_nat e) eqn:En; [lia|]. cbn [ppow]. apply pmul_pzero_l. exact Ed.
+      + apply Z.ltb_ge in Ed. rewrite (degree_pdeg o fk ok den H l Hl) in *. set (d := pdeg fk (D l)) in *.
+        set (G := fun (n : nat) (acc : list F) => okl acc /\ peq (D acc) (ppow fk (D l) n)).
+        assert (DG : forall n acc, G n acc -> poly_degree o acc = (Z.of_nat n * d)%Z).
+        { intros n acc [G1 G2]. rewrite (degree_pdeg o fk ok den H acc G1), (pdeg_peq fk _ _ G2). apply pdeg_ppow. exact Ed. }
+        destruct (pow_go_indexed (Z.to_nat e) G (poly_square o ntt intt) (fun acc => poly_multiply o ntt intt l acc)) with
+          (k := Z.to_nat (bitlen e)) (e := e) (acc := poly_one o) (n := O) as [r [R1 [R2 R3]]].
+        * intros acc n Hn Gn. pose proof (DG n acc Gn) as Dn. destruct Gn as [G1 G2].
+          unfold poly_square.
+          destruct (square_v1_spec o fk ok den H ntt intt lmax wr ntt_is_dft intt_is_idft wr_half_root wr_nonzero two_nz acc G1)
+            as [r [R1 [R2 R3]]]; [rewrite Dn; nia|].
+          exists r. split; [exact R1|]. split; [exact R2|]. rewrite R3, G2. symmetry. apply ppow_add.
+        * intros acc n Hn Gn. pose proof (DG n acc Gn) as Dn. destruct Gn as [G1 G2].
+          destruct (multiply_spec o fk ok den H ntt intt lmax wr ntt_is_dft intt_is_idft wr_half_root wr_nonzero two_nz l acc Hl G1)
+            as [r [R1 [R2 [_ R3]]]]; [rewrite Dn, (degree_pdeg o fk ok den H l Hl); fold d; nia|].
+          exists r. split; [exact R1|]. split; [exact R2|]. rewrite R3, G2.
+          rewrite (ppow_add fk (D l) n 1). rewrite pmul_comm. apply pmul_peq; [reflexivity|]. symmetry. apply ppow_1.
+        * exact He.
+        * unfold bitlen. rewrite (proj2 (Z.eqb_neq e 0) E0). pose proof (Z.log2_nonneg e). rewrite Z2Nat.id by lia.
+          rewrite Z.mod_small; [lia|]. split; [lia|]. apply Z.log2_lt_pow2; lia.
+        * split; [apply (one_ok o fk ok den H)|]. rewrite (one_D o fk ok den H). reflexivity.
+        * exists r. split; [exact R1|]. split; [exact R2|]. rewrite R3.
+          replace (0 * 2 ^ Z.to_nat (bitlen e) + Z.to_nat (e mod 2 ^ Z.of_nat (Z.to_nat (bitlen e))))%nat with (Z.to_nat e); [reflexivity|].
+          unfold bitlen. rewrite (proj2 (Z.eqb_neq e 0) E0). pose proof (Z.log2_nonneg e). rewrite Z2Nat.id by lia.
+          rewrite Z.mod_small; [lia|]. split; [lia|]. apply Z.log2_lt_pow2; lia.
+  Qed.
+End FastPow.
